@@ -256,13 +256,15 @@ func (l *commitLog) AppendMessageSet(ms []byte) ([]int64, error) {
 }
 
 func (l *commitLog) append(segment *segment, ms []byte, entries []*entry) ([]int64, error) {
-	if err := segment.WriteMessageSet(ms, entries); err != nil {
-		return nil, err
-	}
 	var (
 		lastLeaderEpoch = l.leaderEpochCache.LastLeaderEpoch()
 		offsets         = make([]int64, len(entries))
 	)
+	// Record new leader epochs before the messages are written. If the
+	// process dies in between, the checkpoint is ahead of the log and the
+	// entry is removed again on recovery (see ClearLatest in New). The other
+	// order could leave messages of an epoch the checkpoint never heard of,
+	// and the epoch would later be recorded at the wrong start offset.
 	for i, entry := range entries {
 		// Check if message is in a new leader epoch.
 		if entry.LeaderEpoch > lastLeaderEpoch {
@@ -273,6 +275,9 @@ func (l *commitLog) append(segment *segment, ms []byte, entries []*entry) ([]int
 			lastLeaderEpoch = entry.LeaderEpoch
 		}
 		offsets[i] = entry.Offset
+	}
+	if err := segment.WriteMessageSet(ms, entries); err != nil {
+		return nil, err
 	}
 	return offsets, nil
 }
